@@ -37,7 +37,7 @@ NORM_METHOD = "value"
 LOG_CLASS = "IterLog"
 
 FLOOR_PROVENANCE = 10    # LS: residual x2, jacobian_fd x2, check_jacobian x1, return; FD: residual x1; CJ: jacobian_fd x1; CN: check_jacobian x2
-FLOOR_MUSTPASS = 8       # accept x2, iterate definitions outside the loop x2 (assignment + in-place clip), IterLog x2, trace.append x2
+FLOOR_MUSTPASS = 7       # accept x2, iterate assignment before the loop x1, IterLog x2, trace.append x2
 
 # value-preserving wrappers: f(v) has the same element values as v
 VALUE_PRESERVING_METHODS = {"reshape", "copy", "ravel", "flatten", "squeeze", "view"}
@@ -778,9 +778,7 @@ class Fn:
     def iterate_inplace(self, c, ws):
         node_in_loop = self.in_loop(c)
         if not node_in_loop:
-            self.oblig(c, "iterate-init", "R-MUSTPASS", f"{self.name}:iterate-init",
-                       "in-place definition of the iterate before the solver loop (initial clip)")
-            return
+            return        # initialisation (e.g. the initial clip); its effect is judged by R-PROVENANCE
         o = self.oblig(c, "accept", "R-MUSTPASS", f"{self.name}:accept(in-place)", "iterate modified in place inside the loop")
         self.fail(o, f"`{txt(c)}` modifies the iterate in place inside the solver loop without a sufficient-decrease test")
 
